@@ -65,13 +65,15 @@ class Script:
                 g.setdefault(o, []).append(i)
         return g
 
-    def model_lines(self, pq=0, dump=False):
+    def model_lines(self, pq=0, dump=False, wide=False):
         """All raw event orders the runtime may produce: [(line)], one per combination of tick
         positions inside each tie group and per position of a pending tick among pending
         requests after a blocked interval (tickpos)."""
         ties = self.tie_groups()
         blocked_possible = any(m == "s" for _, m in self.caps)
-        tickposs = [0, 1, 2, 3] if blocked_possible else [0]
+        tickposs = ["0", "1", "2", "3"] if blocked_possible else ["0"]
+        if wide:   # one select choice per unblocking of the loop (up to three unblockings)
+            tickposs = ["%d,%d,%d" % v for v in itertools.product(range(5), repeat=3)]
         combos = list(itertools.product(*[range(len(ids) + 1) for _, ids in sorted(ties.items())]))
         out = []
         for combo in combos:
@@ -102,7 +104,7 @@ class Script:
             evs.sort()
             for tp in tickposs:
                 out.append(" ".join(["c10m", "caps=" + ",".join("%d%s" % c for c in self.caps), "pq=%d" % pq,
-                                     "P=%d" % SEC, "t0=0", "tickpos=%d" % tp] + (["dump=1"] if dump else []) +
+                                     "P=%d" % SEC, "t0=0", "tickpos=%s" % tp] + (["dump=1"] if dump else []) +
                                     [e[3] for e in evs]))
         return out
 
@@ -398,6 +400,10 @@ def process(chk, binary, scripts, record=True):
             chk.cov["programs"] += 1
             chk.cov["disagreements_checked"] += 1
         note = compare(s, il, mo0[st:st + ln], mo1[st:st + ln])
+        if note is not None and s.stream == "blocked" and "allowed outcomes" in note:
+            # the loop was unblocked several times: one select choice per unblocking
+            wa, wb = s.model_lines(pq=2, wide=True), s.model_lines(pq=0, wide=True)
+            note = compare(s, il, common.run_model(wa), common.run_model(wb))
         if note is not None:
             chk.diverge(s.stream, case, mo0[st][:600], il[:600], note)
         elif record:
@@ -543,6 +549,8 @@ def replay(chk, path):
         m1 = common.run_model(s.model_lines(0))
         mf = monitor(s, il)
         note = compare(s, il, m0, m1)
+        if note is not None and s.stream == "blocked" and "allowed outcomes" in note:
+            note = compare(s, il, common.run_model(s.model_lines(2, wide=True)), common.run_model(s.model_lines(0, wide=True)))
         print("case=%s\n  model=%s\n  impl=%s\n  monitor=%s compare=%s" % (c[:600], m0[0][:600], il[:600], mf, note))
         if mf or note:
             bad += 1
